@@ -1,5 +1,7 @@
 import H8.Model.Bus
 import H8.Spec.MemMap
+import H8.Spec.Port
+import H8.Spec.Timer
 import H8.Drv.Util
 namespace H8.Drv
 open H8
@@ -87,6 +89,92 @@ def runSpec09 (ops : String) : String :=
   s!"{";".intercalate st.res.toList} mem={mem} dom={if st.dom then 1 else 0}"
 
 def bus09Line (ops : String) : String := s!"M {runModelHistory ops} | S {runSpec09 ops}"
+
+/-! ### C16 spec view: eleven latch ports -/
+
+structure PortsSt where
+  ports : Array Spec.Port := Array.replicate 11 {}
+  res : Array String := #[]
+  dom : Bool := true
+  safe : Bool := true      -- every DDR write so far was latch-safe (guard of `refines_latch_partial`)
+
+def stepPorts (st : PortsSt) (op : String) : PortsSt :=
+  let k := op.take 1 |>.toString
+  let rest := (op.drop 1).toString
+  let ap (i : Nat) (o : Spec.PortOp) (st : PortsSt) : PortsSt :=
+    let p := st.ports[i]!
+    let safe := st.safe && decide (Spec.LatchSafe p o)
+    let (q, r) := p.step o
+    { st with ports := st.ports.set! i q, safe := safe,
+              res := st.res.push (match r with | some v => bvHex v | none => "k") }
+  match k with
+  | "w" =>
+    let (a, v) := hexPair rest
+    if 0xfee000 ≤ a ∧ a ≤ 0xfee00a then ap (a - 0xfee000) (.writeDDR (BitVec.ofNat 8 v)) st
+    else if 0xffffd0 ≤ a ∧ a ≤ 0xffffda then ap (a - 0xffffd0) (.writeDR (BitVec.ofNat 8 v)) st
+    else { st with dom := false, res := st.res.push "?" }
+  | "r" =>
+    let a := hexD rest
+    if 0xffffd0 ≤ a ∧ a ≤ 0xffffda then ap (a - 0xffffd0) .readDR st
+    else { st with dom := false, res := st.res.push "?" }
+  | "p" =>
+    let (p, v) := hexPair rest
+    if 1 ≤ p ∧ p ≤ 11 then ap (p - 1) (.pin (BitVec.ofNat 8 v)) st
+    else { st with res := st.res.push "k" }     -- other port numbers are ignored
+  | "s" => { st with res := st.res.push "k" }
+  | _ => { st with dom := false, res := st.res.push "?" }
+
+def runSpec16 (ops : String) : String :=
+  let st := (ops.splitOn ";").filter (· ≠ "") |>.foldl stepPorts {}
+  let ann := ",".intercalate ((List.range 11).map (fun i => s!"{toHex (i + 1)}:{bvHex (st.ports[i]!).output}"))
+  s!"{";".intercalate st.res.toList} out={ann} dom={if st.dom then 1 else 0} kf={if st.safe then "-" else "NO-LATCH"}"
+
+def bus16Line (ops : String) : String := s!"M {runModelHistory ops} | S {runSpec16 ops}"
+
+/-! ### C17 spec view: tick-by-tick timer -/
+
+structure TmrSt where
+  t : Spec.Tmr := {}
+  res : Array String := #[]
+  dom : Bool := true
+
+def stepTmr (st : TmrSt) (op : String) : TmrSt :=
+  let k := op.take 1 |>.toString
+  let rest := (op.drop 1).toString
+  let ok (t : Spec.Tmr) : TmrSt := { st with t := t, res := st.res.push "k" }
+  match k with
+  | "w" =>
+    let (a, v) := hexPair rest
+    let b := BitVec.ofNat 8 v
+    if a == 0xffff80 then
+      let cks := v % 8
+      let st' := ok (st.t.writeTcr b)
+      -- clock selects 4–7 are outside the statement
+      if cks ≥ 4 then { st' with dom := false } else st'
+    else if a == 0xffff82 then ok { st.t with tcsr := b }
+    else if a == 0xffff84 then ok { st.t with tcora := b }
+    else if a == 0xffff86 then ok { st.t with tcorb := b }
+    else if a == 0xffff88 then ok { st.t with tcnt := b }
+    else { st with dom := false, res := st.res.push "?" }
+  | "r" =>
+    let a := hexD rest
+    let v := if a == 0xffff88 then some st.t.tcnt else if a == 0xffff82 then some st.t.tcsr
+      else if a == 0xffff84 then some st.t.tcora else if a == 0xffff86 then some st.t.tcorb else none
+    match v with
+    | some x => { st with res := st.res.push (bvHex x) }
+    | none => { st with dom := false, res := st.res.push "?" }
+  | "t" =>
+    let n := hexD rest % 256
+    let dom := st.dom && st.t.domain
+    { st with t := Spec.Tmr.states n st.t, res := st.res.push "k", dom := dom }
+  | _ => { st with dom := false, res := st.res.push "?" }
+
+def runSpec17 (ops : String) : String :=
+  let st := (ops.splitOn ";").filter (· ≠ "") |>.foldl stepTmr {}
+  let pend := ",".intercalate (st.t.reqs.map toHex)
+  s!"{";".intercalate st.res.toList} pend={pend} tcnt={bvHex st.t.tcnt} tcsr={bvHex st.t.tcsr} dom={if st.dom then 1 else 0}"
+
+def bus17Line (ops : String) : String := s!"M {runModelHistory ops} | S {runSpec17 ops}"
 
 /-! ### address-space sweep -/
 
